@@ -386,6 +386,9 @@ static void apply_damage(file_t *F,const char *kind,long a,long b){
   else if(!strcmp(kind,"oggs")){ unsigned char g[8]="OggS\0\2\0"; splice(F,P.off,0,g,7); }
   else if(!strcmp(kind,"drop")){ splice(F,P.off,P.len,NULL,0); }
   else if(!strcmp(kind,"dup")){ unsigned char *c=malloc(P.len); memcpy(c,F->bytes+P.off,P.len); splice(F,P.off,0,c,P.len); free(c); }
+  else if(!strcmp(kind,"dupbos")){ /* the a-th page (modulo their number) that begins a logical stream, of whatever stream, once more */
+    int nb=0; for(int i=0;i<F->npages;i++) if(F->pages[i].bos) nb++;
+    if(nb>0){ int want=(int)(a%nb), k=0; for(int i=0;i<F->npages;i++) if(F->pages[i].bos){ if(k==want){ page_t Q=F->pages[i]; unsigned char *c=malloc(Q.len); memcpy(c,F->bytes+Q.off,Q.len); splice(F,Q.off,0,c,Q.len); free(c); break; } k++; } } }
   else if(!strcmp(kind,"swap")){ if(a+1<F->npages){ page_t Q=F->pages[a+1]; unsigned char *c=malloc(P.len+Q.len); memcpy(c,F->bytes+Q.off,Q.len); memcpy(c+Q.len,F->bytes+P.off,P.len); memcpy(F->bytes+P.off,c,P.len+Q.len); free(c);} }
   else if(!strcmp(kind,"trunc")){ long at=P.off+b; if(at<0)at=0; if(at<F->len) F->len=at; }
   else if(!strcmp(kind,"setgp")){ long long g=b; unsigned char *pg=F->bytes+P.off; for(int i=0;i<8;i++) pg[6+i]=(unsigned char)((unsigned long long)g>>(8*i)); recrc(pg); }
